@@ -14,6 +14,7 @@ import z3
 
 from . import spec as S
 from .arr import SymArr, as_array, havoc_array, new_array
+from .core import Proxy  # noqa
 from .core import SymBool, SymNum, Unsupported, and_, ctx, div, implies, is_sym, ite, not_, or_, to_z3, _numeric
 
 
@@ -21,7 +22,7 @@ def _use(name):
     ctx().used_prelude.add(name)
 
 
-class GroupStructure:
+class GroupStructure(Proxy):
     def __init__(self, labels):
         c = ctx()
         self.labels = labels
@@ -137,12 +138,12 @@ def agg_term(kind, gs, g, val_fn, wt_fn=None):
     return r
 
 
-class GroupIndex:
+class GroupIndex(Proxy):
     def __init__(self, gs, g):
         self.gs, self.g = gs, g
 
 
-class GroupSeries:
+class GroupSeries(Proxy):
     """The values of one (possibly derived) column restricted to the rows of group g."""
 
     __array_priority__ = 3000
@@ -247,7 +248,7 @@ def group_reduce(name, values, weights=None, **kw):
     return values._agg(NUMPY_REDUCTIONS[name])
 
 
-class GroupFrame:
+class GroupFrame(Proxy):
     """The sub-frame of one group (groupby.apply)."""
 
     def __init__(self, gb, g):
@@ -259,7 +260,7 @@ class GroupFrame:
         return GroupSeries(self.gb.gs, self.g, lambda p: snap(p))
 
 
-class SymAggregated:
+class SymAggregated(Proxy):
     """Result of groupby(...).aggregate / apply: one row per group, ascending key."""
 
     def __init__(self, gs, columns):
@@ -288,7 +289,7 @@ class SymAggregated:
         self.assigned[key] = arr.copy()
 
 
-class SymGroupBy:
+class SymGroupBy(Proxy):
     def __init__(self, frame, key):
         _use("pandas.DataFrame.groupby")
         if not isinstance(key, str) or key not in frame.cols:
